@@ -302,6 +302,31 @@ func genC19(r *Run) {
 				}
 				r.Add(eLabelEdit, append([][]byte{m}, namesOut(ed)...)...)
 				checkLabelEdit(r, m, ed)
+				// several edits of one value, each followed by an encoding: a second edit in place, an edit back
+				// to the received names, the same on a constructed value
+				step := func(cur []string) []string {
+					nx := append([]string{}, cur...)
+					switch r.Rng.Intn(4) {
+					case 0:
+						if len(nx) > 0 {
+							nx[r.Rng.Intn(len(nx))] = fmt.Sprintf("edit%d.example", r.Rng.Intn(1000))
+						}
+					case 1:
+						if len(nx) > 1 {
+							i, j := r.Rng.Intn(len(nx)), r.Rng.Intn(len(nx))
+							nx[i], nx[j] = nx[j], nx[i]
+						}
+					case 2:
+						nx = append(nx, "more.example")
+					case 3:
+						nx = append([]string{}, pl.Labels...) // back to what was received
+					}
+					return nx
+				}
+				e2 := step(ed)
+				e3 := step(e2)
+				checkLabelEditSeq(r, m, [][]string{ed, e2, e3})
+				checkLabelEditSeq(r, nil, [][]string{ed, e2, e3})
 			}
 		}
 	}
@@ -425,6 +450,40 @@ func checkWrappers(r *Run, b []byte) {
 				r.Fail("wrapper-reencode-dhcpv4-domain-search", hx(b), fmt.Sprintf("re-encoded as %x", out))
 			}
 		}
+	}
+}
+
+// checkLabelEditSeq: a value (parsed from b, or constructed when b is nil) goes through a sequence of name lists,
+// applied the way a caller would (in place where the shape allows it), and is encoded after each step.  Every
+// encoding must be that of the names the value holds at that moment (the received octets are also right whenever
+// the names are exactly the received ones).
+func checkLabelEditSeq(r *Run, b []byte, seq [][]string) {
+	var l *rfc1035label.Labels
+	var orig []string
+	if b != nil {
+		x, err := rfc1035label.FromBytes(append([]byte{}, b...))
+		if err != nil {
+			return
+		}
+		l = x
+		orig = append([]string{}, l.Labels...)
+	} else {
+		l = &rfc1035label.Labels{Labels: append([]string{}, seq[0]...)}
+		seq = seq[1:]
+	}
+	_ = l.ToBytes()
+	for k, ed := range seq {
+		applyEdit(l, append([]string{}, ed...))
+		if k%2 == 0 {
+			_ = l.Length()
+		}
+		out := l.ToBytes()
+		fresh := (&rfc1035label.Labels{Labels: ed}).ToBytes()
+		if bytes.Equal(out, fresh) || (b != nil && sameStrs(orig, ed) && bytes.Equal(out, b)) {
+			continue
+		}
+		r.Fail("reencode-after-several-edits", fmt.Sprintf("%s %q", hx(b), seq), fmt.Sprintf("after edit %d the value holds %q but ToBytes=%x, want %x", k+1, ed, out, fresh))
+		return
 	}
 }
 
